@@ -169,6 +169,24 @@ def protocol_layer(c):
     c.cover("layer_bus_interval_nonzero", O["bus_interval"] != 0)
 
 
+def protocol_layer_wiring(c):
+    """USB3ProtocolLayer with every interface signal a free input (the contract above leaves the ports it does not name at 0):
+    the timestamp receiver is shown every field of every header the link layer offers, a header it accepts is taken from the link
+    layer's queue, and bus_interval is its counter output at full width."""
+    from .c46_ss_in_endpoint import open_protocol_layer, header_queue_consumer_sees, same
+    d, link, ts = open_protocol_layer(c)
+    r = ts.instance(TimestampPacketReceiver)
+    c.lemma("receiver_sees_every_field_of_every_received_header", header_queue_consumer_sees(ts, r.header_sink, link.header_source),
+            clause="On each isochronous timestamp packet: the receiver's header_sink (valid, every header field) is the link layer's header_source")
+    c.lemma("header_accepted_by_receiver_is_taken_from_the_link_layer",
+            z3.Implies(ts.of(r.header_sink.ready) == 1, ts.of(link.header_source.ready) == 1),
+            clause="each timestamp packet is consumed once")
+    c.lemma("bus_interval_is_receiver_counter_at_full_width", same(ts, d.bus_interval, r.bus_interval_counter),
+            clause="the reported bus-interval counter equals the packet's full 14-bit counter: same width, same value at the layer boundary")
+    c.cosim_cycles = 16
+
+
 def contracts(tier):
     yield ("TimestampPacketReceiver", "", receiver)
+    yield ("USB3ProtocolLayer", "wiring_all_ports", protocol_layer_wiring)
     yield ("USB3ProtocolLayer", "open_link", protocol_layer)
